@@ -493,6 +493,13 @@ func TestC08Reuse(t *testing.T) {
 			}
 		}
 	}
+	// renames between two directories (they drop their locks and take {from-dir, to-dir, source} again in inode
+	// order): out of the directory whose handle goes stale, and into it
+	for _, k := range []string{"rename-out", "rename-in"} {
+		for h := 0; h < 12; h++ {
+			cases = append(cases, rcase{k, h, h%2 == 0})
+		}
+	}
 	nrun, nreused, npaused := 0, 0, 0
 	for i, rc := range cases {
 		if i%nshards != shard {
@@ -524,6 +531,9 @@ func TestC08Reuse(t *testing.T) {
 		// two free inode numbers, a low and a high one
 		p0, _, st0 := lookup(root, inodeFullDirs[0])
 		p1, _, st1 := lookup(root, inodeFullDirs[1])
+		if rc.Kind == "rename-in" {
+			remove(p0, "p6") // a third free inode number, for the file that is moved in
+		}
 		if st0 != nt.NFS3_OK || st1 != nt.NFS3_OK || remove(p0, "p5") != nt.NFS3_OK || remove(p1, "p5") != nt.NFS3_OK {
 			s.Stop()
 			t.Fatalf("harness: prefilled image not as expected")
@@ -533,6 +543,12 @@ func TestC08Reuse(t *testing.T) {
 		if c1.Status != nt.NFS3_OK || c2.Status != nt.NFS3_OK {
 			s.Stop()
 			t.Fatalf("harness: setup creations failed: %d %d", c1.Status, c2.Status)
+		}
+		if rc.Kind == "rename-in" {
+			if cx := api.NFSPROC3_CREATE(nt.CREATE3args{Where: nt.Diropargs3{Dir: root, Name: "x"}}); cx.Status != nt.NFS3_OK {
+				s.Stop()
+				t.Fatalf("harness: setup creation of x failed: %d", cx.Status)
+			}
 		}
 		lo, hi := "g1", "g2"
 		loid, hiid := uint64(c1.Resok.Obj_attributes.Attributes.Fileid), uint64(c2.Resok.Obj_attributes.Attributes.Fileid)
@@ -589,6 +605,10 @@ func TestC08Reuse(t *testing.T) {
 					st0c = remove(dh, "f")
 				case "rename":
 					st0c = rename(dh, "f", dh, "g")
+				case "rename-out":
+					st0c = rename(dh, "f", root, "g")
+				case "rename-in":
+					st0c = rename(root, "x", dh, "g")
 				case "lookup":
 					lfh, _, st0c = lookup(dh, "f")
 				case "setattr-child":
@@ -629,7 +649,17 @@ func TestC08Reuse(t *testing.T) {
 			}
 		}
 		switch rc.Kind {
-		case "remove", "rename":
+		case "rename-in":
+			// /d can only have been removed while it was empty: "x was moved into /d" and "/d was removed" cannot both have happened
+			if r2 == nt.NFS3_OK && st0c == nt.NFS3_OK {
+				fail("RENAME /x -> /d/g through the handle of /d succeeded and RMDIR /d succeeded: x went into the new directory /e that got /d's inode number (or was lost with /d)")
+			}
+			if st0c != nt.NFS3_OK {
+				if _, _, st := lookup(root, "x"); st != nt.NFS3_OK {
+					fail("RENAME /x -> /d/g failed with %d, but /x is gone", st0c)
+				}
+			}
+		case "remove", "rename", "rename-out":
 			// both "f was moved out of /d" and "f was removed from / renamed inside /d" cannot have happened
 			if r1 == nt.NFS3_OK && st0c == nt.NFS3_OK {
 				fail("%s of f through the handle of the deleted directory /d succeeded although f had been moved out of /d before: it acted on the new directory /e that got /d's inode number", strings.ToUpper(rc.Kind))
@@ -645,7 +675,7 @@ func TestC08Reuse(t *testing.T) {
 		}
 		if reused {
 			got, _, st := lookup(eh, "f")
-			if st0c != nt.NFS3_OK || rc.Kind == "lookup" || rc.Kind == "setattr-child" {
+			if st0c != nt.NFS3_OK || rc.Kind == "lookup" || rc.Kind == "setattr-child" || rc.Kind == "rename-in" {
 				if st != nt.NFS3_OK || !bytes.Equal(got.Data, fh.Data) {
 					fail("after everything returned, /e/f is gone (LOOKUP: %d) although no successful request removed it", st)
 				}
@@ -661,4 +691,11 @@ func TestC08Reuse(t *testing.T) {
 	St.ClassN("cases_where_the_new_directory_reused_the_inode_number", nreused)
 	St.ClassN("cases_with_the_request_held_inside_its_window", npaused)
 	St.Sample(map[string]any{"kind": "stale directory handle vs. reuse of its inode number under a held request", "cases_in_this_shard": nrun, "reused": nreused}, true)
+}
+
+// A working set larger than the inode cache: 2-6 clients look at 160 files through their handles, each starting at
+// another file, on a cold cache, next to writers of the shared files - every handle must keep answering with the
+// object it was issued for (cache entries are evicted and re-filled while other requests hold or wait for them).
+func TestC08BigSet(t *testing.T) {
+	rapid.Check(t, func(t *rapid.T) { runBigSet(t, "C08") })
 }
